@@ -381,6 +381,12 @@ impl Property for C18 {
             while call_cost(&cfg) * calls > 5e5 && cfg.chunk > 1 {
                 cfg.chunk = (cfg.chunk / 2).max(1);
             }
+            // one sinc instance in sixteen gets a table of 2^16 points (64 x 1024): large tables are where an
+            // implementation is tempted to build with helper threads or to cache
+            if cfg.kind.is_sinc() && threads.get(1).copied().unwrap_or(1) % 16 == 0 {
+                cfg.sinc_len = 64;
+                cfg.os = 1024;
+            }
             Inst { cfg, seed, ops, threads, amp_exp: 0 }
         });
         let amp = prop_oneof![4 => Just(0i16), 1 => Just(-30i16), 1 => Just(-38i16), 1 => Just(-41i16), 1 => Just(-308i16), 1 => Just(-315i16)];
